@@ -7,6 +7,7 @@ L3  struct field order: the writer lays fields out in definition order; the gate
 L4  gate / writer / reader / compiler share the layout helpers; fixed-width setters use the width of their type
 L5  no trapping arithmetic on literal payloads in the gate
 L6  every encoding call is dominated by a positive gate answer on the same literal
+L7  the reader decodes as many array elements as the type says (not as the bit slice happens to hold)
 """
 from .. import mir
 from ..core import AnchorMissing, Finding, RuleResult
@@ -416,5 +417,69 @@ def rule_l6(ctx):
     return res
 
 
+def rule_l7(ctx):
+    res = RuleResult("L7", "the reader takes the number of array elements from the type, not from the bits")
+    body = ctx.body(FROM_BITS)
+    # the type parameter: the first &Type argument
+    ty_arg = None
+    for l in range(1, body.arg_count + 1):
+        if body.locals[l]["ty"] == "&ast::Type":
+            ty_arg = l
+    bits_arg = None
+    for l in range(1, body.arg_count + 1):
+        if body.locals[l]["ty"] == "&[bool]":
+            bits_arg = l
+    if ty_arg is None or bits_arg is None:
+        raise AnchorMissing("L7: from_unwrapped_bits has no (&Type, &[bool]) parameters")
+    n = 0
+    for variant in ("Array", "ArrayConst", "ArrayConstExpr"):
+        succ = body.pruned_succ({(("arg", ty_arg), ()): variant})
+        region = body.reachable([0], succ=succ)
+        if len(region) == len(body.reachable([0])):
+            raise AnchorMissing("L7: cannot isolate the %s arm of from_unwrapped_bits" % variant)
+        rec = [b for b in region if body.term(b)["k"] == "call" and mir.callee(body.term(b)) == FROM_BITS]
+        for rb in rec:
+            loops = [lp for lp in body.loops() if rb in lp["body"]]
+            if not loops:
+                res.bad(Finding("L7", FROM_BITS, "%s elements decoded outside a loop" % variant, "cannot see how many elements are decoded", body.term(rb)["sp"]))
+                continue
+            lp = min(loops, key=lambda l_: len(l_["body"]))
+            for b in lp["body"]:
+                t = body.term(b)
+                if t and t["k"] == "call" and t["func"].get("declared") == "std::iter::Iterator::next":
+                    inner = [l2 for l2 in body.loops() if b in l2["body"]]
+                    if min(inner, key=lambda l2: len(l2["body"]))["header"] != lp["header"]:
+                        continue
+                    n += 1
+                    # what is iterated: a Range (its end decides the count) or something derived from the bit slice
+                    from_bits = from_type = False
+                    for (r, p) in body.trace_operand(t["args"][0]):
+                        if r[0] == "agg":
+                            rv = body.blocks[r[1]]["stmts"][r[2]]["rv"]
+                            if "Range" in (rv.get("adt") or "") and len(rv["ops"]) == 2:
+                                end = body.deep_sources(rv["ops"][1], 5)
+                                if any(rr == ("arg", ty_arg) or (rr[0] == "call" and mir.last_seg(rr[2] or "") in ("get", "resolve_const_expr_usize", "resolve_const_expr_unsigned")) for (rr, pp) in end):
+                                    from_type = True
+                                if any(rr == ("arg", bits_arg) for (rr, pp) in end):
+                                    from_bits = True
+                        elif r == ("arg", bits_arg):
+                            from_bits = True
+                        elif r[0] == "call":
+                            c = body.term(r[1])
+                            if c["args"] and any(rr == ("arg", bits_arg) for (rr, pp) in body.deep_sources(c["args"][0], 3)):
+                                from_bits = True
+                    if from_bits and not from_type:
+                        res.bad(Finding("L7", FROM_BITS, "%s element count taken from the bits" % variant,
+                                        "the number of decoded elements follows the length of the bit slice, not the array type: arrays of zero-sized elements decode to the wrong length",
+                                        t["sp"]))
+                    elif from_type:
+                        res.ok({"arm": variant, "verdict": "element loop bounded by the array type's size"})
+                    else:
+                        res.bad(Finding("L7", FROM_BITS, "%s element count of unknown origin" % variant, "the element loop is bounded by neither the type nor a constant of the program", t["sp"]))
+    if (n < 3) and not res.findings:
+        raise AnchorMissing("L7: expected element loops in the three array arms, found %d" % n)
+    return res
+
+
 def run(ctx):
-    return ctx.run_rules([rule_l1, rule_l1b, rule_l2, rule_l3, rule_l4, rule_l5, rule_l6])
+    return ctx.run_rules([rule_l1, rule_l1b, rule_l2, rule_l3, rule_l4, rule_l5, rule_l6, rule_l7])
